@@ -5,6 +5,7 @@
 #  (C)     the decision of the five deciders for every <<version, 3.0-only kind>> is recorded
 #          from hszinc and judged by TLC (Trace_Gate.tla) against Gate!Accepts.
 #  The row path under arbitrary operation sequences is also part of GridSeq (GateInv).
+import copy
 import json
 
 from core import Report, Work, run_tlc, use_repo, seed, MachineryError
@@ -55,6 +56,14 @@ def store(hs, g, path, kind, n):
         g.extend([{'a': v}]); return lambda: g[-1]['a'] is v
     if path == 'iadd':
         g += [{'a': v}]; return lambda: g[-1]['a'] is v
+    if path == 'append_undeclared':
+        g.append({'zz': v}); ok = lambda: g[-1]['zz'] is v
+        g.column['zz'] = {}                  # declared afterwards: the gate acted when the value was stored
+        return ok
+    if path == 'setitem_undeclared':
+        g[0] = {'zy': v}; ok = lambda: g[0]['zy'] is v
+        g.column['zy'] = {}
+        return ok
     if path == 'extend_tuple':
         g.extend(({'a': v},)); return lambda: g[-1]['a'] is v
     if path == 'extend_iter':
@@ -123,9 +132,18 @@ def replay_case(hs, c):
         return obs, problems
     g = new_grid(hs, ver)
     for n, (path, kind) in enumerate(c['steps']):
+        if path.startswith('copy_'):
+            # from here on the history runs on a deep copy (a grid of its own: its gate judges and upgrades IT)
+            orig, g = g, copy.deepcopy(g)
+            osnap = snapshot(orig)
+            path = path[5:]
+        else:
+            orig = None
         before = snapshot(g)
         try:
             check = store(hs, g, path, kind, n)
+            if orig is not None and snapshot(orig) != osnap:
+                problems.append('store_into_copy_changed_original')
             after_ver = str(g.version)
             obs.append(['stored' if after_ver == before[0] else 'upgraded', after_ver])
             if not check():
